@@ -1,1 +1,155 @@
-//! (placeholder; filled in by the check that owns it)
+//! Breakpad symbol-file *models* and their text rendering.
+//!
+//! A `SymModel` is the record list a generator decided on; `to_text()` renders it in the
+//! grammar of docs/symbol_files.md (the dialect `breakpad-symbols` parses).  The checks keep
+//! the model next to the text, so a reference lookup can be a plain linear scan over the
+//! model's records and never has to look at what the parser under test built.
+//!
+//! Nothing here touches the code under test.
+
+/// `<address> <size> <line> <file>` record following a FUNC.
+#[derive(Clone, Debug, PartialEq, Eq, Hash)]
+pub struct LineRec {
+    pub addr: u64,
+    pub size: u32,
+    pub line: u32,
+    pub file: u32,
+}
+
+/// `INLINE <depth> <call_line> <call_file> <origin> [<addr> <size>]+` record following a FUNC.
+#[derive(Clone, Debug, PartialEq, Eq, Hash)]
+pub struct InlineRec {
+    pub depth: u32,
+    pub call_line: u32,
+    pub call_file: u32,
+    pub origin: u32,
+    pub ranges: Vec<(u64, u32)>,
+}
+
+/// `FUNC <addr> <size> <param> <name>` with its sub-records, in file order:
+/// first the INLINE_ORIGIN records placed *inside* the block, then INLINEs, then lines.
+#[derive(Clone, Debug, PartialEq, Eq, Hash)]
+pub struct FuncRec {
+    pub addr: u64,
+    pub size: u32,
+    pub param: u32,
+    pub name: String,
+    pub origins_inside: Vec<(u32, String)>,
+    pub inlines: Vec<InlineRec>,
+    pub lines: Vec<LineRec>,
+}
+
+impl FuncRec {
+    pub fn new(addr: u64, size: u32, param: u32, name: &str) -> FuncRec {
+        FuncRec { addr, size, param, name: name.into(), origins_inside: vec![], inlines: vec![], lines: vec![] }
+    }
+}
+
+#[derive(Clone, Debug, PartialEq, Eq, Hash)]
+pub struct PublicRec {
+    pub addr: u64,
+    pub param: u32,
+    pub name: String,
+}
+
+/// `STACK WIN <ty> <addr> <size> 0 0 <param> 0 0 0 <has_program> <program | allocates_bp>`
+/// (`ty` 4 = frame data with a program string, 0 = FPO).
+#[derive(Clone, Debug, PartialEq, Eq, Hash)]
+pub struct WinRec {
+    pub ty: u8,
+    pub addr: u64,
+    pub size: u32,
+    pub param: u32,
+    /// program string for ty 4; "0"/"1" (allocates base pointer) for ty 0
+    pub tail: String,
+}
+
+/// `STACK CFI INIT <addr> <size> <rules>` followed by `STACK CFI <addr> <rules>` lines.
+#[derive(Clone, Debug, PartialEq, Eq, Hash)]
+pub struct CfiRec {
+    pub addr: u64,
+    pub size: u32,
+    pub init: String,
+    pub add: Vec<(u64, String)>,
+}
+
+#[derive(Clone, Debug, Default, PartialEq, Eq, Hash)]
+pub struct SymModel {
+    /// FILE records
+    pub files: Vec<(u32, String)>,
+    /// INLINE_ORIGIN records at top level (before any FUNC)
+    pub origins: Vec<(u32, String)>,
+    pub funcs: Vec<FuncRec>,
+    pub publics: Vec<PublicRec>,
+    pub wins: Vec<WinRec>,
+    pub cfis: Vec<CfiRec>,
+}
+
+pub const MODULE_LINE: &str = "MODULE Linux x86 000000000000000000000000000000000 m\n";
+
+impl SymModel {
+    /// Render in file order: MODULE, FILE*, INLINE_ORIGIN*, (FUNC block)*, PUBLIC*, STACK WIN*, STACK CFI*.
+    pub fn to_text(&self) -> String {
+        use std::fmt::Write;
+        let mut t = String::with_capacity(256);
+        t.push_str(MODULE_LINE);
+        for (id, n) in &self.files {
+            let _ = writeln!(t, "FILE {id} {n}");
+        }
+        for (id, n) in &self.origins {
+            let _ = writeln!(t, "INLINE_ORIGIN {id} {n}");
+        }
+        for f in &self.funcs {
+            let _ = writeln!(t, "FUNC {:x} {:x} {:x} {}", f.addr, f.size, f.param, f.name);
+            for (id, n) in &f.origins_inside {
+                let _ = writeln!(t, "INLINE_ORIGIN {id} {n}");
+            }
+            for i in &f.inlines {
+                let _ = write!(t, "INLINE {} {} {} {}", i.depth, i.call_line, i.call_file, i.origin);
+                for (a, s) in &i.ranges {
+                    let _ = write!(t, " {a:x} {s:x}");
+                }
+                t.push('\n');
+            }
+            for l in &f.lines {
+                let _ = writeln!(t, "{:x} {:x} {} {}", l.addr, l.size, l.line, l.file);
+            }
+        }
+        for p in &self.publics {
+            let _ = writeln!(t, "PUBLIC {:x} {:x} {}", p.addr, p.param, p.name);
+        }
+        for w in &self.wins {
+            let has_program = if w.ty == 4 { 1 } else { 0 };
+            let _ = writeln!(t, "STACK WIN {} {:x} {:x} 0 0 {:x} 0 0 0 {} {}", w.ty, w.addr, w.size, w.param, has_program, w.tail);
+        }
+        for c in &self.cfis {
+            let _ = writeln!(t, "STACK CFI INIT {:x} {:x} {}", c.addr, c.size, c.init);
+            for (a, r) in &c.add {
+                let _ = writeln!(t, "STACK CFI {a:x} {r}");
+            }
+        }
+        t
+    }
+}
+
+/// Inclusive address range `[addr, addr+size-1]` by the rule the FUNC / STACK records document
+/// (`size != 0` and `addr + size` representable), or `None`.
+pub fn range_excl_end_checked(addr: u64, size: u64) -> Option<(u64, u64)> {
+    if size == 0 {
+        return None;
+    }
+    Some((addr, addr.checked_add(size)? - 1))
+}
+
+/// Inclusive address range `[addr, addr+size-1]` by the rule used for line records
+/// (`size != 0` and the *last byte* representable), or `None`.
+pub fn range_last_byte_checked(addr: u64, size: u64) -> Option<(u64, u64)> {
+    if size == 0 {
+        return None;
+    }
+    Some((addr, addr.checked_add(size - 1)?))
+}
+
+pub fn ranges_intersect(a: (u64, u64), b: (u64, u64)) -> bool {
+    !(a.1 < b.0 || b.1 < a.0)
+}
